@@ -24,24 +24,25 @@ type backend struct {
 	errPm       int // per-mille probability of an error outcome
 	panicPm     int
 	closeFaults bool
-	panics      int // panics injected so far
-	errKinds    bool // draw error *values* of many kinds (linux / syscall errno, os.Err*, wrapped, opaque)
+	panics      int         // panics injected so far
+	errKinds    bool        // draw error *values* of many kinds (linux / syscall errno, os.Err*, wrapped, opaque)
 	dirRoot     bool        // the root is always a directory
+	panicOn     string      // the next call of this method panics (once)
 	fs          *memfs      // if set: outcomes of the tree operations come from this file system (K5)
 	presetQIDs  []p9.QID    // fs mode: the QIDs the next call hands out
 	forceKind   p9.FileMode // if non-zero: mode of the next file created by a named walk
 	lastNew     int         // id of the handle created last
-	fullReads   bool // ReadAt always fills the buffer (C13 boundary runs)
-	manyDirents int  // Readdir returns about this many entries (C13 boundary runs)
+	fullReads   bool        // ReadAt always fills the buffer (C13 boundary runs)
+	manyDirents int         // Readdir returns about this many entries (C13 boundary runs)
 
 	calls  []string // indexed call tokens of the current request
 	multis []string // unindexed tokens (Close, Renamed) of the current request
 	tape   []string // outcome tokens of the current request
 
-	kind    map[int]uint32 // mode (type bits | perm) of every handle
-	closed  map[int]int
-	uac     []string // use-after-close events
-	gate    func(h int, meth string) // optional hook (concurrency harnesses)
+	kind   map[int]uint32 // mode (type bits | perm) of every handle
+	closed map[int]int
+	uac    []string                 // use-after-close events
+	gate   func(h int, meth string) // optional hook (concurrency harnesses)
 }
 
 func newBackend(r *rng, errPm, panicPm int, closeFaults bool) *backend {
@@ -129,7 +130,8 @@ func (b *backend) record(h int, meth string, ints []uint64, strs [][]byte, force
 	case len(forced) > 0:
 		b.tape = append(b.tape, fmt.Sprintf("err:%d", uint32(forced[0])))
 		o.err = forced[0]
-	case roll < b.panicPm:
+	case roll < b.panicPm || (b.panicOn != "" && b.panicOn == meth):
+		b.panicOn = ""
 		b.tape = append(b.tape, "panic")
 		b.panics++
 		doPanic = true
